@@ -13,6 +13,8 @@ mod runner;
 mod c05_notify;
 mod c06_layout;
 mod cq_queue;
+mod c14_blk;
+mod c16_net;
 
 use proto::RunResult;
 use runner::{Ctx, Tier};
@@ -87,6 +89,8 @@ fn main() {
                 "C06" => c06_layout::run(&ctx),
                 "C01" | "C02" | "C03" | "C04" => cq_queue::run(&ctx, &prop),
                 "C05" => c05_notify::run(&ctx),
+                "C14" => c14_blk::run(&ctx),
+                "C16" => c16_net::run(&ctx),
                 _ => {
                     eprintln!("unknown property {}", prop);
                     std::process::exit(2)
